@@ -13,6 +13,12 @@ unsigned int nondet_uint(void);
 #define HM_N 2
 #define HM_OP 0
 #endif
+#ifndef HM_H
+#define HM_H 0
+#endif
+#ifndef HM_KEY
+#define HM_KEY 0
+#endif
 #define KEYS 6                      /* key universe 0..5; keys 1..HM_N are present */
 static unsigned int H[KEYS];
 /* ASSUMED: the hash functor is a pure function of the key */
@@ -23,7 +29,9 @@ static int present[KEYS]; static int value_of[KEYS];
 
 static void build(struct hm *m)
 {
-	for (int k = 0; k < KEYS; k++) { H[k] = nondet_uint(); present[k] = 0; }
+	/* the hash function of this run: HM_H = 0 constant (everything collides), 1 identity, 2 k*3 (collides mod 3, spreads mod 10),
+	 * 3 k*10+1 (collides after growth to 10 buckets) */
+	for (int k = 0; k < KEYS; k++) { H[k] = HM_H == 0 ? 7u : HM_H == 1 ? (unsigned)k : HM_H == 2 ? (unsigned)k * 3u : (unsigned)k * 10u + 1u; present[k] = 0; }
 	memset(m, 0, sizeof(*m)); hm_ctor_0(m, &frgv_h, frgv_a);
 	m->_capacity = HM_CAP;
 	m->_table = HM_CAP ? (struct hm_chain **)frgv_valloc_allocate(&frgv_a, sizeof(struct hm_chain *) * HM_CAP) : 0;
@@ -65,7 +73,7 @@ static void check(struct hm *m)
 void h_hm(void)
 {
 	struct hm m; build(&m);
-	int k = nondet_int(); __CPROVER_assume(k >= 0 && k < KEYS);
+	int k = HM_KEY;                                                /* key the operation works on (concrete per run) */
 #if HM_OP == 0
 	check(&m);                                                   /* the constructed table itself */
 #elif HM_OP == 1
